@@ -263,78 +263,67 @@ func checkC09(p *Program, r *Report) {
 	}
 	r.Floor("C09.agree", 4)
 
-	// ---- C09.formula
-	mm := p.Func("bloom", "MurmurHash3")
-	if mm == nil {
-		r.Unresolved("C09.formula", "bloom.MurmurHash3")
-	} else {
-		found := false
-		for _, fn := range pkgFuncs(p, "bloom") {
-			for _, b := range fn.Blocks {
-				for _, in := range b.Instrs {
-					c, ok := in.(*ssa.Call)
-					if !ok || c.Call.StaticCallee() != mm || fn == mm {
-						continue
-					}
-					found = true
-					tb := NewTermBuilder(p, fn)
-					seed := tb.Term(c.Call.Args[0])
-					okSeed := seed.Op == "+" && len(seed.Args) == 2
+	// ---- C09.formula: the bit number, as the bit-setting and bit-testing functions compute it — in-repo helpers
+	// inlined, so it does not matter whether the reduction lives in a method, a pure function or the loop itself
+	for _, acc := range []struct {
+		fn *ssa.Function
+		ia *ssa.IndexAddr
+	}{{writer, wia}, {reader, ria}} {
+		if acc.ia == nil {
+			r.Unresolved("C09.formula", "bit-array access of "+FnName(acc.fn))
+			continue
+		}
+		tbF := NewTermBuilder(p, acc.fn)
+		t := tbF.Term(acc.ia.Index)
+		ts := t.String()
+		// byte index = bitNumber / 8
+		var bitNo *Term
+		if t.Op == "/" && len(t.Args) == 2 && t.Args[1].String() == "#8" {
+			bitNo = t.Args[0]
+		}
+		okMod, okSeed := false, false
+		howMod, howSeed := "byte index term "+ts, "byte index term "+ts
+		if bitNo != nil && bitNo.Op == "%" && len(bitNo.Args) == 2 {
+			h, m := bitNo.Args[0], bitNo.Args[1]
+			ms := m.String()
+			howMod = "modulus term " + ms
+			if m.Op == "*" && len(m.Args) == 2 && strings.Contains(ms, "#8") && strings.Contains(ms, "len(") && strings.Contains(ms, ".Filter") {
+				okMod = true
+			}
+			if strings.HasPrefix(h.Op, "call") && strings.Contains(h.String(), "MurmurHash3") && len(h.Args) == 2 {
+				seed := h.Args[0]
+				howSeed = "seed term " + seed.String()
+				if seed.Op == "+" && len(seed.Args) == 2 {
 					hasMul, hasTweak := false, false
-					if okSeed {
-						for _, a := range seed.Args {
-							if a.Op == "*" && len(a.Args) == 2 {
-								for _, m := range a.Args {
-									if m.Op == "leaf" && m.Leaf == "#4221880213" {
-										hasMul = true
-									}
+					for _, a := range seed.Args {
+						if a.Op == "*" && len(a.Args) == 2 {
+							for _, mm := range a.Args {
+								if mm.Op == "leaf" && mm.Leaf == "#4221880213" {
+									hasMul = true
 								}
 							}
-							if a.Op == "fld" && a.Field.Name() == "Tweak" {
-								hasTweak = true
-							}
+						}
+						if a.Op == "fld" && a.Field != nil && a.Field.Name() == "Tweak" {
+							hasTweak = true
 						}
 					}
-					r.Add("C09.formula", FnName(fn), "hash seed is i·0xFBA4C795 + tweak", c.Pos(), okSeed && hasMul && hasTweak, "seed term "+seed.String())
-					// reduction: result % (8·len(filter))
-					okMod := false
-					how := "the hash is not reduced modulo the number of filter bits"
-					for _, u2 := range *c.Referrers() {
-						bo, ok := u2.(*ssa.BinOp)
-						if !ok || bo.Op != token.REM || bo.X != ssa.Value(c) {
-							continue
-						}
-						d := tb.Term(bo.Y)
-						how = "modulus term " + d.String()
-						ds := d.String()
-						if d.Op == "*" && len(d.Args) == 2 && strings.Contains(ds, "#8") && strings.Contains(ds, "len(") && strings.Contains(ds, ".Filter") {
-							okMod = true
-						}
-					}
-					r.Add("C09.formula", FnName(fn), "bit number is the hash modulo 8·len(filter)", c.Pos(), okMod, how)
-					// every exit of the hash helper yields that reduction and nothing else
-					if okMod {
-						for _, ret := range returnsOf(fn) {
-							if len(ret.Results) != 1 {
-								continue
-							}
-							bo, ok := ret.Results[0].(*ssa.BinOp)
-							okRet := ok && bo.Op == token.REM && bo.X == ssa.Value(c)
-							if okRet {
-								ds := tb.Term(bo.Y).String()
-								okRet = strings.Contains(ds, "#8") && strings.Contains(ds, "len(") && strings.Contains(ds, ".Filter")
-							}
-							r.Add("C09.formula", FnName(fn), "every exit of the hash helper returns the reduced hash", ret.Pos(), okRet, "returns "+tb.Term(ret.Results[0]).String())
-						}
-					}
+					okSeed = hasMul && hasTweak
 				}
+				// strength-reduced form: a loop-carried seed that starts at the tweak and advances by the constant each
+				// round takes the same values tweak + j·0xFBA4C795, j = 0 … rounds−1
+				if seed.Op == "ind" && len(seed.Args) == 2 && seed.Args[0].Op == "fld" && seed.Args[0].Field != nil && seed.Args[0].Field.Name() == "Tweak" &&
+					seed.Args[1].Op == "leaf" && seed.Args[1].Leaf == "#4221880213" {
+					okSeed = true
+				}
+			} else {
+				okMod = false
+				howMod = "the reduced value is not MurmurHash3(seed, item): " + h.String()
 			}
 		}
-		if !found {
-			r.Unresolved("C09.formula", "call of MurmurHash3 in package bloom")
-		}
+		r.Add("C09.formula", FnName(acc.fn), "hash seed is i·0xFBA4C795 + tweak", acc.ia.Pos(), okSeed, howSeed)
+		r.Add("C09.formula", FnName(acc.fn), "bit number is the hash modulo 8·len(filter)", acc.ia.Pos(), okMod, howMod)
 	}
-	r.Floor("C09.formula", 3)
+	r.Floor("C09.formula", 4)
 
 	// ---- C09.decides: what the reader's answer and the writer's effect may depend on
 	for _, fn := range []*ssa.Function{writer, reader} {
